@@ -53,6 +53,9 @@ static void mk_alphabet(void)
 		addl(L_TUN, 60, 0, "tun(60B)");
 		addl(L_TUN, 260, 0, "tun(260B)");
 		for (int i = 0; i < 7; i++) addl(L_SETFRAG, FS[i], 0, "N(%d)", FS[i]);
+		/* beyond what one answer buffer holds: the 4094-byte cap of the sender then cuts the fragment, not the negotiated size */
+		addl(L_SETFRAG, 5000, 0, "N(5000)");
+		addl(L_TUN, 4600, 0, "tun(4600B)");      /* compresses to about 4 610 bytes: more than one answer carries, less than the size asked for */
 		addl(L_DUP, 0, V_NEWID, "redeliver(0 back,newid)");
 		addl(L_TIME, 1000, 0, "+1s");
 		/* the session goes silent for 61 s and a new session (version, login, lazy switch; no size request yet) takes
@@ -190,6 +193,7 @@ static void inspect_outputs(const char *lname)
 		adv_out *o = &adv_outs[i];
 		if (o->kind == 3) { xp_count(K_TUNW, 1); continue; }
 		if (o->kind != 0 && o->kind != 1) continue;
+		if (o->full_len > o->len) vw_fatal("datagram of %d bytes does not fit the capture buffer", o->full_len);
 		if (o->len >= 4 && o->data[0] == 0x10 && o->data[1] == 0xd1 && o->data[2] == 0x9e) continue;    /* raw frames are not DNS answers */
 		static rd_msg m; char err[128];
 		if (rd_parse(o->data, o->len, &m, err)) { if (is14) viol("unparsable-answer", "after %s the server emitted %d bytes that are not a DNS message: %s", lname, o->len, err); continue; }
@@ -311,7 +315,7 @@ static int apply(int li)
 		goto done;
 	}
 	case L_TUN: {
-		uint8_t ip[400];
+		static uint8_t ip[8200];
 		int n = tm_ippkt(ip, L->a, 0xC0A80101u, 0x0A000002, 2000 + M.npkt++);
 		adv_tun_in(ip, n);
 		break;
